@@ -183,6 +183,14 @@ const TYPE_UNIVERSE: &[&str] = &[
     "averyveryverylongtypename!", "ǅ", "K", "\u{212A}", "t\u{301}", ".", "..", "...", ".a", "a.", "+", "--", "0", "\r", "deb\r", "a\u{b}",
 ];
 
+/// The type names of the PURL spec the way their projects write them, and the usual other
+/// capitalisations (a "did you mean" table keyed on exact spellings shows here).
+const BRAND_TYPES: &[&str] = &[
+    "CocoaPods", "Cocoapods", "GitHub", "Github", "Bitbucket", "BitBucket", "NuGet", "Nuget", "PyPI", "PyPi", "Pypi", "NPM", "Npm", "RubyGems", "Gem", "Maven", "Golang", "GoLang", "Go", "Cargo",
+    "Crates.io", "Composer", "Conan", "Conda", "CRAN", "Cran", "Debian", "Deb", "Docker", "Generic", "Hackage", "Hex", "HuggingFace", "Huggingface", "MLflow", "MLFlow", "OCI", "Oci", "Pub", "RPM", "Rpm",
+    "SWID", "Swid", "Swift", "ALPM", "Alpm", "APK", "Apk", "Bitnami", "CPAN", "Cpan", "LuaRocks", "Luarocks", "QPKG", "Qpkg", "Qt5", "C++", "H2O", "Log4j", "Win32", "X11", "S3", "P2", "Web3",
+];
+
 fn long_types() -> Vec<String> {
     let mut v = Vec::new();
     for n in [23usize, 24, 64, 255, 256, 257, 300, 1024, 65_536] {
@@ -221,7 +229,7 @@ pub fn run(ctx: &mut Ctx) {
     // builder: the type universe x short histories (complete), then random histories
     let calls = hist::universe_calls(false);
     let mut idx = 0u64;
-    for ty in TYPE_UNIVERSE {
+    for ty in TYPE_UNIVERSE.iter().chain(BRAND_TYPES.iter()) {
         for name in ["n", ""] {
             for c in std::iter::once(None).chain(calls.iter().map(Some)) {
                 idx += 1;
@@ -234,7 +242,7 @@ pub fn run(ctx: &mut Ctx) {
         }
     }
     if ctx.worker == 0 {
-        ctx.st.exhaustive.push(json!({"name": format!("{} type strings x {{name, empty name}} x (no call | each of {} call forms), 4 type parameters", TYPE_UNIVERSE.len(), calls.len()), "size": idx, "completed": true}));
+        ctx.st.exhaustive.push(json!({"name": format!("{} type strings x {{name, empty name}} x (no call | each of {} call forms), 4 type parameters", TYPE_UNIVERSE.len() + BRAND_TYPES.len(), calls.len()), "size": idx, "completed": true}));
         // long type strings (length limits applied to one type parameter only)
         for ty in long_types() {
             for call in [None, Some(hist::Call::Rebuild), Some(hist::Call::Ver("1".into()))] {
@@ -249,6 +257,7 @@ pub fn run(ctx: &mut Ctx) {
     for _ in 0..ctx.share(300_000, 8_000_000) {
         let mut h = hist::rand_hist(&mut r, false);
         match r.below(6) {
+            0 if r.coin() => h.ty = r.pick(BRAND_TYPES).to_string(),
             0 => h.ty = r.pick(TYPE_UNIVERSE).to_string(),
             1 => h.ty = gen::mixed_string(&mut r, 0, 30, 30),
             2 => h.ty = spell::gen_type(&mut r).to_uppercase(),
